@@ -262,6 +262,9 @@ func UnmarshalYAML(bs []byte, v interface{}) error {
 }
 
 func Unmarshal(bs []byte, v interface{}) error {
+	if len(bs) == 0 {
+		return UnknownSyntax
+	}
 	if bs[0] == '{' {
 		return json.Unmarshal(bs, v)
 	}
@@ -364,7 +367,9 @@ func GetHTTPRequest(ctx *core.Context, r *http.Request) (map[string]interface{},
 				return nil, err
 			}
 
-			if js[0] == '{' {
+			if len(js) == 0 {
+				// No body: the query parameters are all we have.
+			} else if js[0] == '{' {
 				// If the body looks like JSON, treat it as JSON.
 				if err = json.Unmarshal(js, &m); err != nil {
 					return nil, err
